@@ -427,7 +427,7 @@ var families = []family{
 		sb.WriteString("; x")
 		return sb.String(), wantInt(7)
 	}},
-	{name: "nestfunc", cap: 0, what: "budget", hi: 60, hiT: 400, build: func(n, m int) (string, func(*ds.VMValue) string) {
+	{name: "nestfunc", cap: 0, what: "budget", hi: 0, hiT: 0, build: func(n, m int) (string, func(*ds.VMValue) string) {
 		var sb strings.Builder
 		for i := 0; i < n; i++ {
 			fmt.Fprintf(&sb, "func g%d() { ", i)
@@ -962,7 +962,7 @@ func nearCap(t *rapid.T, cp, hi int) int {
 		}
 	case 4, 5:
 		if cp > 0 {
-			return rapid.IntRange(cp/2, min(hi, 2*cp)).Draw(t, "nAround")
+			return rapid.IntRange(cp/2, max(cp/2, min(hi, 2*cp))).Draw(t, "nAround")
 		}
 	case 6:
 		return rapid.IntRange(0, 12).Draw(t, "nSmall")
@@ -1009,6 +1009,9 @@ func TestProp(t *testing.T) {
 			cp = min(cp, 40000)
 			if hi == 0 {
 				hi = max(40, min(2*cp+10, 64000))
+			}
+			if f.name == "nestfunc" {
+				hi = min(hi, 700)
 			}
 		}
 		c.N = nearCap(t, cp, hi)
